@@ -22,6 +22,16 @@ func checkC08(c *Ctx, w *World) {
 	if pl == nil || pl.uscs == nil {
 		return
 	}
+	// ---- premises / shared rules:
+	//  * every keyed call consults the balancer's tables (bound lookup first, with its key) — a shortcut that places a keyed call
+	//    without the lookup also skips the stand-in bookkeeping (stickiness);
+	//  * "placed on some READY channel whenever one exists / returns home when home is READY" reads the recorded states and the
+	//    published picker: the state bookkeeping rules of C04.
+	if grs, gsr := pl.f("(*gcpBalancer).getReadySubConnRef"), pl.f("(*gcpPicker).getSubConnRef"); grs != nil && gsr != nil {
+		lookupRules(pl, grs, gsr, func(string) string { return "C08.lookup-first" }, true)
+	}
+	importPremises(c, w, "C04", checkC04, []string{"C04.pair", "C04.picker", "C04.publish", "C04.eval"}, "C08.states")
+
 	p := pl.p
 	grs := pl.f("(*gcpBalancer).getReadySubConnRef")
 	if grs == nil {
